@@ -92,11 +92,11 @@ CHECKS = {
             "Every sequence of up to 3 (thorough 4) parallel groups from 16 shapes (incl. empty groups and data lengths around the compact-u16 limit) x instruction limits x size limits x payer-change flag x lookup table: after add+optimize the labelled instructions are neither dropped, duplicated nor reordered, atomic groups unsplit, merges only between mergeable groups, payer rule kept, limits respected and the size estimate is not below the bincode size of the built transaction.",
             "shapes and limits listed in the evidence", "§5 C41"),
     "C22": ("mc-store", MC, "explicit-state BFS (E3) over real store instructions in the in-process runtime, invariant after every successful instruction",
-            "Two machines. (1) All interleavings to the stated depth of create/execute/close of deposits and withdrawals by owners, the keeper and a stranger, fee claims and keeper transfers, clock advances and feed re-publication over two markets sharing both vaults, also from fabricated position-like start states. (2) Real position orders (prepare/create/execute/close of market increase and decrease orders of two traders on both markets), market swap orders, shifts between the markets, liquidations (solvent and insolvent), fee claims, price sets and clock advances, from the empty world and from a state with both traders' positions open. After every successful instruction each market's recorded balances cover liquidity+impact+fees and collateral, the collateral-sum and open-interest pools equal the sums over the position accounts, and the markets sharing a vault do not record more than it holds.",
+            "Two machines. (1) All interleavings to the stated depth of create/execute/close of deposits and withdrawals by owners, the keeper and a stranger, fee claims and keeper transfers, clock advances and feed re-publication over two markets sharing both vaults (one deposit swaps its long side along a path that ends in the deposit market itself), also from fabricated position-like start states (accrued fees, collateral close to the whole balance, backed collateral above the pools). (2) Real position orders (prepare/create/execute/close of market increase and decrease orders of two traders on both markets), market swap orders, shifts between the markets, liquidations (solvent and insolvent), fee claims, price sets and clock advances, from the empty world and from a state with both traders' positions open. After every successful instruction each market's recorded balances cover liquidity+impact+fees and collateral, the collateral-sum and open-interest pools equal the sums over the position accounts, and the markets sharing a vault do not record more than it holds.",
             "svm-lite runtime trusted; ADL and GLV actions are not in this alphabet (C09 program part, C45)", "§10 C22"),
     "C23": ("mc-store", MC, "explicit-state BFS (E3) over real store instructions in the in-process runtime against the action-lifecycle protocol",
             "Same two explorations as C22 with the full actor alphabet (owner, keeper, stranger) plus a third machine for GLV deposits and withdrawals: the action-state transition relation (Pending->Completed/Cancelled exactly once, terminal absorbing) for deposits, withdrawals, shifts, position and swap orders and GLV actions, who may execute/close/liquidate in which state, escrow contents returned on close (input funds to the owner, outputs to the receiver, also when they differ), consumed escrow on completion, execution-fee and rent refunds, and untouched markets/vaults/positions/escrow after a cancelled execution (unreachable minimum output, unacceptable price, expired request) are checked on every transition.",
-            "ADL orders and GLV shifts are not under this relation", "§10 C23"),
+            "ADL orders and GLV shifts are not under this relation; crafted account lists: one (a short-only deposit closed with the short mint in the unused long slot)", "§10 C23"),
     "C24": ("mc-store", E1, "exhaustive product enumeration (E1) of the real PriceValidator/SmallPrices against the statement in i128, plus exhaustive enumeration of feed-kind pairs through the real execute_deposit instruction",
             "Age/future rules over boundary clocks, timestamps, adjustments, max ages and future excesses at the i64/u64 limits; deviation rule and well-formedness through the validate_one + SmallPrices::from_price pipeline over dense prices, references, factors and multipliers; timestamp-range rule over pairs/triples of validated timestamps. Instruction level: execute_deposit over all pairs of eight feed kinds (good, stale, future, far from the other feed, wrong provider, wrong feed id, inverted, zero) x three operation kinds: executed only with two good feeds; the oracle account as left in memory on return (also of failed, uncommitted instructions) is byte-identical to a cleared oracle.",
             "svm-lite runtime trusted; Chainlink/Pyth feed parsing is C26/C28", "§10 C24"),
@@ -116,7 +116,7 @@ CHECKS = {
             "compute/clamp/charge-on-increment/estimate-for-withdrawal over boundary and dense sizes x factors x min/max prices x increments x withdrawals x swap types: fee = ceil(floor(size*factor/UNIT)/price_min), split exact or refused, estimate = withdrawal + fee. Settlement histories on a real pending order from twenty (recorded, escrow) start states: repeated settlements by the right builder, another user and nobody, tokens arriving, further fees recorded: each settlement moves min(recorded, escrow) to the builder only, zeroes the record, and a builder never receives more than was ever recorded.",
             "no instruction attaches a builder yet (executions pass the constant factor 0): the record is attached through a visibility hook", "§10 C32"),
     "C20": ("mc-store", MC, "E1 matrices plus explicit-state BFS (E3-light) over real store instructions against the keeper permission policy",
-            "Every MarketConfigKey and MarketConfigFlag x {not updatable, updatable} x {market keeper, config keeper, stranger} through update_market_config(_flag) and set_market_config_updatable; BFS over permission changes, updates by every actor, per-owner config buffers with updatable/mixed/empty entries, buffer application and clock advances across expiry; rejected calls leave the market account byte-identical.",
+            "Every MarketConfigKey and MarketConfigFlag x {not updatable, updatable} x {market keeper, config keeper, stranger} through update_market_config(_flag) and set_market_config_updatable; BFS over permission changes, updates by every actor, per-owner config buffers with updatable/mixed/empty entries, buffer application, clock advances across expiry and the admin disabling / re-enabling the config-keeper role; rejected calls leave the market account byte-identical.",
             "svm-lite runtime trusted; two keys and one flag in the history alphabet", "§5 C20"),
     "C21": ("mc-store", MC, "explicit-state BFS (E2) over revertible operations on a real Market account through RevertibleMarket, plus BFS (E3) over real deposit/withdrawal/shift instructions for the mint/burn deferral",
             "Every sequence of operations (begin, up to two writes with a full read after each, commit or abandon) to the stated depth for ten runs whose write alphabets together cover all pool kinds, the clocks and other-state fields: reads at begin equal storage, reads after writes equal the overlay, storage changes only at commit and then equals the overlay; state key = full account bytes. Program part: all interleavings to the stated depth of create/execute/close of deposits, withdrawals and shifts (half of them abandoned after their writes), clock advances and re-pricing: abandoned operations change no stored state, supply or holding and are invisible to every following operation (differential); committed ones equal the same operation on a plain in-memory market.",
@@ -138,7 +138,7 @@ CHECKS = {
             "clock fixed for the position section (the SDK model has no borrowing-state update); discount comparison is C31", "§10 C40"),
     "C44": ("mc-store", E1, "exhaustive enumeration (E1) of swap paths executed through real deposit instructions in the in-process runtime",
             "Every sequence of 0..3 markets out of five over three tokens (duplicates, non-chaining paths and paths through the deposit market included) x initial token x amounts as the swap path of a real create_deposit + execute_deposit: creation accepts exactly the duplicate-free chaining paths ending in the market's long token; after completion recorded balances and vaults move together, markets outside the path are untouched and every hop moved exactly the amounts of the C40-validated SDK swap in order; stored paths tampered to hold a duplicate (adjacent, or revisiting [p,q,p] where every hop chains) never complete. Withdrawals from the first market with every pair of (long-side, short-side) paths of length 0..2: recorded balances of every market move exactly as the withdrawal and both declared paths imply. Paths of eight, nine and ten hops over seventeen markets execute hop by hop as the reference, eleven hops are refused. SwapActionParams accessors over every (primary, secondary) length pair against the declared slices.",
-            "paths of four to seven hops are not enumerated (three and fewer exhaustively, eight to eleven by depth-first selection); swap orders run in C22/C23", "§10 C44"),
+            "paths of four to seven hops are not enumerated (three and fewer exhaustively, eight to eleven by depth-first selection); the deposit market carries fabricated, backed position collateral (slack above the pools); swap orders run in C22/C23", "§10 C44"),
     "C37": ("mc-store", E1, "exhaustive enumeration (E1) of factor setters and of claim orders executed through the real treasury instruction in the in-process runtime",
             "Config::set_gt_factor / set_buyback_factor over boundary factors from every reachable current value; the real complete_gt_exchange instruction (CPI into the store's close_gt_exchange, SPL transfers signed by the bank PDA) for all six claim orders of three claimants over a grid of one- and two-token bank balances and GT amounts: each claim = floor(balance*gt/remaining), never above holdings, at least the floor share of the original, recorded balance follows the vault, last claim drains, no double claim.",
             "bank / exchange / treasury config accounts fabricated through hooked state functions; deposits into the bank and confirmation through treasury instructions are not explored", "§5 C37"),
